@@ -520,7 +520,15 @@ def run_property(prop, tier, seed, only=None):
     else:
         distinct += sum(mo["distinct_in_shards"] for mo in monitors_out)
 
-    extra = plans.post_process(prop, tier, steps, results, monitors_out, run_root)
+    def run_single(config, profile, tool, monitor, params):
+        st = plans.Step(monitor, config, profile=profile, tool=tool, shards=1, params=params)
+        b = build(config, profile, tool)
+        od = os.path.join(run_root, "single-%s-%s-%s" % (monitor, config, hashlib.sha1(json.dumps(params, sort_keys=True).encode()).hexdigest()[:8]))
+        os.makedirs(od, exist_ok=True)
+        r = run_shard(st, b, tier, seed, 0, od)
+        return r["report"]
+
+    extra = plans.post_process(prop, tier, seed, steps, monitors_out, run_single)
     if extra:
         for v in extra.get("violations", []):
             new_violations.append((v.get("step_info", {}), v))
